@@ -4,3 +4,4 @@ import G9Proofs.Props.C20
 import G9Proofs.Props.C04
 import G9Proofs.Props.C05
 import G9Proofs.Props.C12
+import G9Proofs.Props.C13
